@@ -132,6 +132,12 @@ func (br *xmpReader) readAttrValue(tag *Tag) (buf []byte, err error) {
 		if buf[0] == '=' && (buf[1] == '"' || buf[1] == '\'') {
 			delim := buf[1]
 			if b := bytes.IndexByte(buf[i:], delim); b >= 0 {
+				if i+b+2 >= len(buf) && len(buf) >= s {
+					// the closing quote ends the window: the one or two bytes that
+					// follow it are needed to tell how the attribute list goes on
+					s += maxTagValueSize
+					continue
+				}
 				i += b
 				d = i + 1
 				if buf[i+1] == '>' {
